@@ -28,7 +28,19 @@ CHECK, SET = AB + 'check_cache', AB + 'set_cache'
 I16MIN, I16MAX = -32768, 32767
 
 
+def resolve_cache_fns(ctx):
+    """the cache probe / store functions are found by what they do (look up / insert into search_result_cache), not by name"""
+    global CHECK, SET
+    c, st_ = search_cache_fns(ctx.facts)
+    if c is None or st_ is None:
+        ctx.anchor_missing('C08.anchor', 'search_result_cache', 'expected exactly one function that looks up and one that inserts into the search cache')
+        return False
+    CHECK, SET = c, st_
+    return True
+
+
 def minimax_outcomes(ctx):
+    resolve_cache_fns(ctx)
     facts = ctx.facts
     opaque = {n for n in facts.fns if n.startswith('chess::move_generator') or n.startswith(AB + 'prioritize')
               or n.startswith(CHESSMOVE)} | {CHECK, SET, SCORE, BOARD + '::toggle_turn'}
